@@ -2,7 +2,7 @@ import AbraModel.Lib.Sort
 import AbraModel.Drv.Util
 /- Driver for M11 sort: `sort <cmp> e1 e2 …`; elements are `key,tag` pairs (plain `key` for cmp = int).
    Answer: the sorted elements in the same spelling, `-` for the empty array. -/
-namespace Abra.Drv
+namespace Abra.Drv.SortDrv
 open Abra.Lib
 
 def parsePair? (s : String) : Option (Int × Int) :=
@@ -48,4 +48,6 @@ def handleSort : List String → String
     | _, _ => "bad-op"
   | _ => "bad-op"
 
-end Abra.Drv
+end Abra.Drv.SortDrv
+
+def Abra.Drv.handleSort : List String → String := Abra.Drv.SortDrv.handleSort
